@@ -34,7 +34,8 @@ def cases(draw, tier="quick"):
     k = draw(st.lists(st.integers(0, nf - 1), min_size=1, max_size=nf, unique=True))
     limit = draw(st.one_of(st.none(), st.integers(0, spec["mesh"]["nlev"] - 1)))
     sched = dict(exec=[draw(st.lists(st.integers(0, 7), max_size=8)) for _ in range(spec["mesh"]["nlev"])])
-    return dict(spec=spec, mode=mode, fields=k, limit=limit, sched=sched, gridpos=draw(st.integers(0, nf)))
+    return dict(spec=spec, mode=mode, fields=k, limit=limit, sched=sched, gridpos=draw(st.integers(0, nf)),
+                cli=draw(st.sampled_from([False, False, True])))
 
 
 def compact(case):
@@ -85,6 +86,21 @@ def check_case(case, ctx):
         return [f"slice(fformat='return') returned {type(ref_out).__name__}"]
     cov = plot.covering(L)
     lmap = plot.level_map(L)
+    if case.get("cli"):
+        # the command line entry point, array format: the saved .npz must hold the same arrays
+        import amr_kitchen.mandoline.cli as cli
+        from . import common
+        ctx.label("cli")
+        argv = ["mandoline", "src", "-f", "array", "-o", "cli_out", "-V", "0", "-v"] + list(req) + (["-L", str(limit)] if limit is not None else [])
+        try:
+            common.run_main(cli.main, argv)
+            with np.load("cli_out.npz") as z:
+                saved = {k: z[k] for k in z.files}
+            for name in out_names + (["grid_level"] if do_grid else []) + ["x", "y"]:
+                if name not in saved or not refread.same_bits(np.asarray(saved[name], dtype="<f8"), np.asarray(ref_out[name], dtype="<f8")):
+                    v.append(f"{name}: array saved by the command line differs from the returned array")
+        except Exception as e:
+            v.append(f"mandoline command line raised {type(e).__name__}: {e} (argv {argv})")
     for i, name in enumerate(out_names):
         if name not in ref_out:
             v.append(f"field {name} missing from the output ({sorted(ref_out)})")
